@@ -186,3 +186,108 @@ Theorem C17_rows_agree_in_every_environment :
       fst (flow_image_in env valid_size e upscale maxcol) <= fst (flow_canvas_in env valid_size e upscale maxcol)).
 Proof. exact rows_agree_in. Qed.
 Print Assumptions C17_rows_agree_in_every_environment.
+
+(** *** Round 4 (a): SEVERAL REQUESTS IN FLIGHT AT ONCE on one canvas.
+
+    [content(...)] is a generator; urwid keeps several generators of one canvas alive and
+    advances them alternately (the parts of an image left and right of a widget laid over it).
+    [model/TrimIter.v]: a generator = not started / suspended with ITS OWN locals (layout, rows
+    still to be emitted) / finished; [run] advances several of them over one immutable canvas by
+    an arbitrary schedule of [next()] calls. *)
+From TI Require Import model.TrimIter proofs.TrimIterProofs.
+
+(** A generator run alone and to the end yields exactly the rows of the list-valued [content]
+    of the earlier theorems. *)
+Theorem C17_generator_alone_is_content :
+  forall cv lv rq,
+  map (emit (fst (plan_of cv lv rq))) (snd (plan_of cv lv rq))
+  = TrimCanvas.content cv lv (r_tl rq) (r_tt rq) (r_cols rq) (r_rows rq).
+Proof. exact plan_is_content. Qed.
+Print Assumptions C17_generator_alone_is_content.
+
+(** NON-INTERFERENCE: for EVERY list of requests on one canvas and EVERY schedule, what request
+    [i] is handed by its [k]-th [next()] (a row, or StopIteration) is what it would be handed
+    were it the only request: a function of (canvas, its own sub-rectangle, k).  (The design
+    that keeps the layout on the canvas object, overwritten by the request started last, is
+    refuted: [TrimIterProofs.shared_layout_refuted].) *)
+Theorem C17_simultaneous_requests_do_not_interfere :
+  forall cv lv rqs sched i rq,
+  nth_error rqs i = Some rq ->
+  received i (run cv lv (map Fresh rqs) sched)
+  = map (alone cv lv rq) (seq 0 (count_occ Nat.eq_dec sched i)).
+Proof. exact noninterference. Qed.
+Print Assumptions C17_simultaneous_requests_do_not_interfere.
+
+Theorem C17_simultaneous_requests_rows :
+  forall cv lv rqs sched i rq,
+  nth_error rqs i = Some rq ->
+  somes (received i (run cv lv (map Fresh rqs) sched))
+  = firstn (count_occ Nat.eq_dec sched i)
+           (TrimCanvas.content cv lv (r_tl rq) (r_tt rq) (r_cols rq) (r_rows rq)).
+Proof. exact received_rows. Qed.
+Print Assumptions C17_simultaneous_requests_rows.
+
+(** With [C17_content_is_crop]: on every well-formed text canvas, under every schedule, a
+    request inside the canvas that is advanced at least [rows] times is handed exactly [rows]
+    rows, each [cols] wide, default attributes at the end, showing cell for cell the crop of
+    ITS sub-rectangle — whatever other requests are in flight. *)
+Theorem C17_interleaved_requests_are_crops :
+  forall W H w h ha va imgs lv rqs sched i tl tt cols rows,
+  canvas_ok W H w h imgs ->
+  nth_error rqs i = Some {| r_tl := tl; r_tt := tt; r_cols := Some cols; r_rows := Some rows |} ->
+  0 <= tl -> 0 <= tt -> 0 < cols -> 0 < rows -> tl + cols <= W -> tt + rows <= H ->
+  (Z.to_nat rows <= count_occ Nat.eq_dec sched i)%nat ->
+  let got := map fst (somes (received i (run (text_canvas W H w h ha va imgs) lv (map Fresh rqs) sched))) in
+  Z.of_nat (length got) = rows
+  /\ map vis_row got
+     = crop (Z.to_nat tl) (Z.to_nat tt) (Z.to_nat cols) (Z.to_nat rows)
+            (map vis_row (canvas_lines W H w h ha va imgs))
+  /\ Forall (fun r => Z.of_nat (length (vis_row r)) = cols /\ end_attrs r = adefault
+                      /\ text_only r = true) got.
+Proof. exact interleaved_requests_are_crops. Qed.
+Print Assumptions C17_interleaved_requests_are_crops.
+
+(** *** Round 4 (b): renders that FAIL, with an error placeholder ([model/TrimPlaceholder.v]).
+
+    Flow use: whenever [render((maxcol,))] returns a canvas — the image's or ANY placeholder's,
+    whether or not rendering failed — it is [maxcol] wide and has exactly the rows
+    [rows((maxcol,))] announces.  (Handing the placeholder the flow size urwid passed in is
+    refuted: [TrimPlaceholderProofs.flowsize_placeholder_refuted].) *)
+From TI Require Import model.TrimPlaceholder proofs.TrimPlaceholderProofs.
+
+Theorem C17_rows_agree_with_placeholder :
+  forall maxcol upscale fit ori fails ph c r,
+  render_outcome [maxcol] upscale fit ori fails ph = Canvas c r ->
+  c = maxcol /\ r = Trim.rows upscale fit ori.
+Proof. exact rows_agree_placeholder. Qed.
+Print Assumptions C17_rows_agree_with_placeholder.
+
+(** … and a canvas IS returned when rendering succeeds, or fails with a placeholder installed
+    that accepts a box size. *)
+Theorem C17_flow_render_with_box_placeholder :
+  forall maxcol upscale fit ori fails ph,
+  (fails = true -> exists p, ph = Some p /\ ph_box p = true) ->
+  render_outcome [maxcol] upscale fit ori fails ph = Canvas maxcol (Trim.rows upscale fit ori).
+Proof. exact flow_render_with_box_placeholder. Qed.
+Print Assumptions C17_flow_render_with_box_placeholder.
+
+Theorem C17_box_render_size :
+  forall c0 r0 upscale fit ori fails ph c r,
+  render_outcome [c0; r0] upscale fit ori fails ph = Canvas c r -> c = c0 /\ r = r0.
+Proof. exact box_render_size. Qed.
+Print Assumptions C17_box_render_size.
+
+Theorem C17_render_raises_only_without_box_placeholder :
+  forall size upscale fit ori fails ph,
+  (length size = 1 \/ length size = 2)%nat ->
+  render_outcome size upscale fit ori fails ph = Raised ->
+  fails = true /\ (ph = None \/ exists p, ph = Some p /\ ph_box p = false).
+Proof. exact render_raises_only_without_box_placeholder. Qed.
+Print Assumptions C17_render_raises_only_without_box_placeholder.
+
+Theorem C17_rows_agree_with_placeholder_in_every_environment :
+  forall (env : Type) (valid_size : env -> option Z -> Z * Z) e upscale maxcol fails ph c r,
+  render_outcome [maxcol] upscale (valid_size e (Some maxcol)) (valid_size e None) fails ph = Canvas c r ->
+  c = maxcol /\ r = rows_in env valid_size e upscale maxcol.
+Proof. exact rows_agree_placeholder_in. Qed.
+Print Assumptions C17_rows_agree_with_placeholder_in_every_environment.
